@@ -9,7 +9,7 @@ Ops (one case = one run of the state machine `Sentinel.System.step`):
 * `clock <ms>`                               first op of a case creates the inbound array at that time
 * `load <metric>/<strategy>/<f:bits> …`      `system.LoadRules` (metric 0 load 1 avgRT 2 concurrency 3 qps 4 cpu; strategy -1 none, 1 BBR)
 * `sys load|cpu <f:bits>`                    `system_metric.SetSystemLoad / SetSystemCpuUsage`
-* `entry <id> <res> in|out <batch>`  => `pass` | `block sys`
+* `entry <id> <res> in|out|default <batch|->`  => `pass` | `block sys`   (`default`: no WithTrafficType option = outbound; `-`: no WithBatchCount option = 1)
 * `exit <id>`
 * `stat`  => the inbound aggregates the slot reads
 -/
@@ -23,7 +23,8 @@ def fA : Arith Float :=
     qps := fun s => s.toFloat / (vI.toFloat / 1000.0),
     conc := fun c => Float.ofInt c,
     avgRt := fun n => n.toFloat,
-    cap := fun m r => m.toFloat * vS.toFloat / vI.toFloat * 1000.0 * r.toFloat / 1000.0 }
+    cap := fun m r => m.toFloat * vS.toFloat / vI.toFloat * 1000.0 * r.toFloat / 1000.0,
+    isNaN := fun x => x.isNaN }
 
 def init : St Float := { load := -1.0, cpu := -1.0 }
 
@@ -46,9 +47,12 @@ def parseOp? : List String → Option (Op Float)
   | ["sys", "cpu", f] => (parseFbits? f).map .sysCpu
   | ["clock", t] => t.toNat?.map .clock
   | ["entry", id, _res, dir, b] =>
-      match dir, b.toNat? with
+      -- `default` = no `WithTrafficType` option (documented default: outbound); batch `-` = no `WithBatchCount` option (default 1)
+      let b := if b == "-" then some 1 else b.toNat?
+      match dir, b with
       | "in", some b => some (.entry id true b)
       | "out", some b => some (.entry id false b)
+      | "default", some b => some (.entry id false b)
       | _, _ => none
   | ["exit", id] => some (.exit id)
   | _ => none
@@ -59,43 +63,27 @@ def showRes : Res → Option String
   | .blockSys => some "block sys"
   | .bad => some "bad-op"
 
-/-- is some loaded QPS / concurrency / avgRT rule carrying a NaN trigger? (region of `nan-trigger`) -/
-def hasNanTrigger (s : St Float) : Bool :=
-  s.rules.any fun r => r.trigger.isNaN && (r.metric == 1 || r.metric == 2 || r.metric == 3)
-
 def statLine (spec : Bool) (s : St Float) : String :=
   let v : View Float := viewOf spec s
   let blk := if spec then (refW gL s.hist (cbs gL s.now + gL - vI) (cbs gL s.now)).block else vSum s.arr vI s.now .block
   let maxavg := v.maxComplete.toFloat * vS.toFloat / vI.toFloat * 1000.0
   s!"[p={v.pass} b={blk} c={v.complete} conc={v.conc} avgrt={fbits (fA.avgRt (avgRtOf v))} minrt={fbits v.minRt.toFloat} qps={fbits (fA.qps v.pass)} maxavg={fbits maxavg}]"
 
-/-- `repaired = true` (DESIGN 2.6: the finding `nan-trigger` no longer reproduces on the tree under test):
-    inside the finding's region the model takes the repaired variant of the fragment, i.e. the decision the
-    property demands; outside the region it is the code-shaped model as always -/
-def stepLine (spec : Bool) (repaired : Bool) (s : St Float) (ts : List String) (_ : String) : St Float × Option String :=
+def stepLine (spec : Bool) (s : St Float) (ts : List String) (_ : String) : St Float × Option String :=
   match ts with
   | ["stat"] => if s.started then (s, some (statLine spec s)) else (s, some "bad-op")
   | _ =>
     match parseOp? ts with
     | none => (s, some "bad-op")
     | some op =>
-      let (s', r) := step fA (spec || (repaired && hasNanTrigger s)) s op
-      match op, r with
-      | .entry _ true _, .pass =>
-          -- known finding `nan-trigger`: a NaN trigger of a `≥`-type rule is never reached, yet the code
-          -- (`!(v < NaN)`) rejects every inbound request
-          -- (inside the region the spec state follows the as-is transition so that later lines stay comparable)
-          if spec && !repaired && hasNanTrigger s then
-            let (s2, r2) := step fA false s op
-            if r2 == .blockSys then (s2, some "?known:nan-trigger:pass") else (s', showRes r)
-          else (s', showRes r)
-      | _, _ => (s', showRes r)
+      let (s', r) := step fA spec s op
+      (s', showRes r)
 
 /-- `explain` mode (measurement only, never compared): the code-shaped run, each inbound decision annotated
     with the metric types of the violated loaded rules and with the role of the BBR capacity term
     (`over`/`under` when some BBR load/cpu rule has its reading above the trigger, `na` otherwise) -/
 def explainLine (s : St Float) (ts : List String) (ln : String) : St Float × Option String :=
-  let (s', r) := stepLine false false s ts ln
+  let (s', r) := stepLine false s ts ln
   match parseOp? ts, r with
   | some (.entry _ true _), some r =>
     if !s.started then (s', some r) else
@@ -110,9 +98,8 @@ def explainLine (s : St Float) (ts : List String) (ln : String) : St Float × Op
     (s', some (r ++ " ; viol=" ++ ",".intercalate viol ++ " ; bbr=" ++ bbr ++ " ; conc=" ++ toString v.conc ++ " ; fx=" ++ fx))
   | _, _ => (s', r)
 
-def run (mode : String) : IO Unit := do
-  let rep := ((← IO.getEnv "VERIF_C07_REPAIRED").getD "") == "nan-trigger"
+def run (mode : String) : IO Unit :=
   if mode == "explain" then loop init explainLine
-  else loop init (stepLine (mode == "spec") rep)
+  else loop init (stepLine (mode == "spec"))
 
 end Sentinel.Drv.C07
